@@ -106,6 +106,9 @@ type Thread struct {
 	frames    []*Frame
 	lastClock *Term
 	yielded   bool
+	spinCell  string // busy-wait detection: last cell loaded without an intervening write by anyone
+	spinCount int
+	spinSeq   int
 	panicking bool
 	panicV    Value
 }
@@ -134,6 +137,7 @@ type State struct {
 	sleep     []SleepEnt
 	clock     *Term // last value handed out by the symbolic clock (ms or ns as set by harness)
 	sched     []int
+	writeSeq  int // number of visible writes so far (busy-wait detection)
 	panicking bool
 	panicV    Value
 	ghost     map[string]Value
@@ -174,7 +178,7 @@ func cloneFrames(fs []*Frame) []*Frame {
 
 func (s *State) clone() *State {
 	n := &State{job: s.job, heap: make(map[int]Value, len(s.heap)), nextID: s.nextID, seq: s.seq,
-		cur: s.cur, grant: s.grant, clock: s.clock, panicking: s.panicking, panicV: s.panicV,
+		cur: s.cur, grant: s.grant, clock: s.clock, panicking: s.panicking, panicV: s.panicV, writeSeq: s.writeSeq,
 		ghost: make(map[string]Value, len(s.ghost)), model: s.model, steps: s.steps}
 	for k, v := range s.ghost {
 		n.ghost[k] = v
@@ -184,7 +188,7 @@ func (s *State) clone() *State {
 	}
 	n.frames = cloneFrames(s.frames)
 	for i, t := range s.threads {
-		nt := &Thread{lastClock: t.lastClock, yielded: t.yielded, panicking: t.panicking, panicV: t.panicV}
+		nt := &Thread{lastClock: t.lastClock, yielded: t.yielded, panicking: t.panicking, panicV: t.panicV, spinCell: t.spinCell, spinCount: t.spinCount, spinSeq: t.spinSeq}
 		if i != s.cur {
 			nt.frames = cloneFrames(t.frames)
 		}
